@@ -33,6 +33,24 @@ if __name__ == '__main__':
                 seq = [(s, q) for s, q, n in c['h1'] for _ in range(n)]
                 e, h = eps_steps(c['acc'], seq, c['d1'])
                 out.append({'a': eps_hist(c['acc'], c['h1'], c['d1']), 'b': e, 'hist': h, 'error': None})
+            elif k == 'reuse':
+                # epsilon is a function of the history only: an accountant OBJECT that was already queried with another history
+                # (and then given h2 through load_state_dict, or by assignment, and stepped) must agree with a fresh accountant
+                a = CLS[c['acc']]()
+                a.history = [tuple(h) for h in c['h1']]
+                a.get_epsilon(delta=c['d1'])
+                src = CLS[c['acc']]()
+                src.history = [tuple(h) for h in c['h2']]
+                if c.get('via') == 'assign':
+                    a.history = [tuple(h) for h in c['h2']]
+                else:
+                    a.load_state_dict(src.state_dict())
+                e1 = float(a.get_epsilon(delta=c['d1']))
+                for _ in range(c.get('more', 0)):
+                    a.step(noise_multiplier=c['h2'][-1][0], sample_rate=c['h2'][-1][1])
+                    src.step(noise_multiplier=c['h2'][-1][0], sample_rate=c['h2'][-1][1])
+                e2 = float(a.get_epsilon(delta=c['d1']))
+                out.append({'a': eps_hist(c['acc'], c['h2'], c['d1']), 'b': e1, 'a2': eps_hist(c['acc'], [list(h) for h in src.history], c['d1']), 'b2': e2, 'error': None})
             elif k == 'cli':
                 al = RDPAccountant.DEFAULT_ALPHAS
                 e, _ = _apply_dp_sgd_analysis(sample_rate=c['q'], noise_multiplier=c['s'], steps=c['n'], alphas=al, delta=c['d1'], verbose=False)
